@@ -177,7 +177,7 @@ fn packed_overlap() {
         for shape in [MolecularShape2::circle(), MolecularShape2::from_trimer(0.637556, 120., 1.), MolecularShape2::from_trimer(1.0, 180., 1.9)].iter() {
             let st0 = PackedState::from_group(shape.clone(), &wg).unwrap();
             let n = st0.total_shapes() as f64;
-            for _ in 0..4000 {
+            for _ in 0..30000 {
                 let st = st0.clone();
                 let mut basis = st.generate_basis();
                 let nb = basis.len();
@@ -395,7 +395,7 @@ fn explain(log: &[(Vec<f64>, Option<f64>)], lo: &[f64], hi: &[f64], max_step: f6
 #[test]
 fn optimiser_contract() {
     let mut r = rng();
-    for _ in 0..4000 {
+    for _ in 0..30000 {
         let k = r.gen_range(1, 4);
         let mode = r.gen_range(0, 4) as u8;
         let lo: Vec<f64> = (0..k).map(|_| pick(&mut r, 2.).min(0.)).collect();
@@ -410,8 +410,8 @@ fn optimiser_contract() {
             seed: r.gen(), steps, inner: match r.gen_range(0, 4) { 0 => r.gen_range(0, 3), 1 => r.gen_range(1, 600), _ => r.gen_range(1, 40) },
             kt_start: match r.gen_range(0, 3) { 0 => 0., 1 => 0.1, _ => r.gen_range(0., 2.) },
             kt_finish: if r.gen() { Some(r.gen_range(0., 0.1)) } else { None },
-            kt_ratio: match r.gen_range(0, 4) { 0 => Some(r.gen_range(0., 1.)), 1 => Some(1.), _ => None },
-            max_step: match r.gen_range(0, 4) { 0 => 0.01, 1 => r.gen_range(0., 1.), 2 => 1., _ => r.gen_range(1., 6.) },
+            kt_ratio: match r.gen_range(0, 5) { 0 => Some(r.gen_range(0., 1.)), 1 => Some(1.), 2 => Some(r.gen_range(1., 3.)), _ => None },
+            max_step: match r.gen_range(0, 5) { 0 => 0.01, 1 => r.gen_range(0., 1.), 2 => 1., 3 => [1e-5, 1e-6, 3e-5][r.gen_range(0, 3)], _ => r.gen_range(1., 6.) },
             conv: None,
         };
         let desc = format!("Scripted(mode {}, x0 {:?}, lo {:?}, hi {:?}) with {:?}", mode, x0, lo, hi, c);
